@@ -4,7 +4,8 @@
     number of blocks, any block written with a negative count followed by its byte size, decimals
     with sign-extension padding -- is [encode_e] of some evalue that erases to the value. *)
 From Coq Require Import List NArith ZArith.
-Require Import Base Schema Varint Reader Target De AvroValue Encoding Denote Wf DeProofs.
+Require Import Base Schema Varint Utf8 Reader Target De AvroValue Encoding Denote Wf DeProofs.
+Require Import DeSafetyProofs DeSoundBase DeSoundMain DeSoundReject DeSoundProofs.
 Import ListNotations.
 
 (* for the dynamically-typed consumer in slice mode: exactly the encoding is consumed (whatever
@@ -45,6 +46,70 @@ Theorem C03_long : forall z rest pos ma, i64_range z ->
   read_varint VI64 (mkRd (spec_long z ++ rest) pos None ma)
   = (Ok z, mkRd rest (pos + N.of_nat (length (spec_long z))) None ma).
 Proof. exact read_varint_long. Qed.
+
+(* SOUNDNESS -- "never a fabricated value": whatever the dynamically typed consumer returns Ok on,
+   for ANY schema (no well-formedness needed), configuration, fuel, depth, and reader mode (slice or
+   any chunking), is the reading of a value that CONFORMS to the schema (bool from a 0/1 byte, valid
+   UTF-8, branch / symbol indices in range, sizes as declared, ...), and the bytes consumed are an
+   encoding of that value in the grammar [valid_enc_relaxed] = the specification's grammar with three
+   documented relaxations the decoder (like the reference implementations) allows: over-long varints
+   of at most 10 bytes, the byte size after a negative block count is not compared with anything
+   when items are decoded one by one, any amount of decimal sign extension *)
+Theorem C03_sound : forall Sc cfg fuel n depth favor force rs d rs',
+  bytes_okb (rd_inp rs) = true ->
+  de Sc cfg fuel n depth favor force TAny rs = (Ok d, rs') ->
+  exists v pre,
+    rd_inp rs = pre ++ rd_inp rs' /\ conforms Sc n v = true /\
+    erase_borrow d = dval_any Sc n v /\ valid_enc_relaxed Sc n v pre.
+Proof. exact DeSoundProofs.C03_sound_bytes. Qed.
+
+(* by contraposition: input no prefix of which is a (relaxed) encoding of a conforming value is
+   rejected with Err -- not Ok, not a panic, not a hang *)
+Theorem C03_malformed_rejected : forall Sc cfg fuel n depth favor force rs,
+  schema_wf Sc = true -> In n Sc -> (c_max_seq cfg < 2 ^ 64 - 1)%N ->
+  (work_bound Sc cfg depth (blen (rd_inp rs)) <= fuel)%nat ->
+  bytes_okb (rd_inp rs) = true ->
+  (forall v pre rest, rd_inp rs = pre ++ rest -> conforms Sc n v = true -> ~ valid_enc_relaxed Sc n v pre) ->
+  exists e, fst (de Sc cfg fuel n depth favor force TAny rs) = Err e.
+Proof. exact DeSoundProofs.C03_reject. Qed.
+
+(* the five classes of the property text, directly *)
+Theorem C03_boolean_byte : forall Sc cfg f depth favor force rs b rest,
+  rd_inp rs = b :: rest -> (2 <= b)%N -> is_err (de Sc cfg (S f) FBoolean depth favor force TAny rs).
+Proof. exact de_bool_reject. Qed.
+Theorem C03_invalid_utf8 : forall Sc cfg f n depth favor force rs z k,
+  str_node n = true -> decode_var VI64 (rd_inp rs) = Some (z, k) -> (0 <= z)%Z ->
+  utf8_valid (firstn (Z.to_nat z) (skipn (N.to_nat k) (rd_inp rs))) = false ->
+  is_err (de Sc cfg (S f) n depth favor force TAny rs).
+Proof. exact de_string_bad_utf8. Qed.
+Theorem C03_union_index : forall Sc cfg f variants depth favor force rs z k,
+  decode_var VI64 (rd_inp rs) = Some (z, k) -> (z < 0)%Z \/ (Z.of_nat (length variants) <= z)%Z ->
+  is_err (de Sc cfg (S f) (FUnion variants) depth favor force TAny rs).
+Proof. exact de_union_index_reject. Qed.
+Theorem C03_enum_index : forall Sc cfg f nm symbols depth favor force rs z k,
+  decode_var VI64 (rd_inp rs) = Some (z, k) -> (z < 0)%Z \/ (Z.of_nat (length symbols) <= z)%Z ->
+  is_err (de Sc cfg (S f) (FEnum nm symbols) depth favor force TAny rs).
+Proof. exact de_enum_index_reject. Qed.
+Theorem C03_negative_length : forall Sc cfg f n depth favor force rs z k,
+  ld_node n = true -> decode_var VI64 (rd_inp rs) = Some (z, k) -> (z < 0)%Z ->
+  is_err (de Sc cfg (S f) n depth favor force TAny rs).
+Proof. exact de_negative_length_reject. Qed.
+Theorem C03_premature_end : forall Sc cfg f n depth favor force rs z k,
+  ld_node n = true -> decode_var VI64 (rd_inp rs) = Some (z, k) -> (0 <= z)%Z ->
+  (Z.of_nat (length (rd_inp rs)) < Z.of_N k + z)%Z ->
+  is_err (de Sc cfg (S f) n depth favor force TAny rs).
+Proof. exact de_ld_truncated. Qed.
+Theorem C03_premature_end_varint : forall Sc cfg f n depth favor force rs,
+  varint_first n = true -> decode_u64 (rd_inp rs) = None ->
+  is_err (de Sc cfg (S f) n depth favor force TAny rs).
+Proof. exact de_varint_truncated. Qed.
+
+(* the relaxations are real (accepted inputs that are not the specification's encoding), and the
+   byte hypothesis is needed *)
+Check overlong_long_accepted.
+Check block_size_unchecked.
+Check empty_decimal_accepted.
+Check C03_sound_needs_byte_input.
 
 (* non-vacuity: a two-block array of maps containing a union and a decimal *)
 Check de_any_complete_bounded_instance.
